@@ -17,6 +17,7 @@ type trieCase struct {
 	Height int      `json:"height"`
 	Ops    []string `json:"ops"`  // "k:v" hex, v=0 deletes
 	Keys   []string `json:"keys"` // queried keys (hex)
+	Shape  string   `json:"shape,omitempty"`
 }
 
 func (c trieCase) line() string {
@@ -57,6 +58,42 @@ func genTrieCase(r *hx.RNG, heights []int) trieCase {
 		n = 0 // empty trie
 	}
 	present := map[string]*big.Int{}
+	if r.Chance(22) && h >= 4 {
+		// repeated sub-trie: the same small pattern of (suffix, value) pairs under two or three different prefixes, so
+		// that identical proof nodes (same hash) are reached through different parents
+		sb := 1 + r.Intn(3) // suffix bits
+		if h > 8 && r.Chance(40) {
+			sb = 1 + r.Intn(h-2) // long identical edges
+		}
+		type pv struct {
+			suf *big.Int
+			v   int64
+		}
+		var pat []pv
+		for i := 1 + r.Intn(3); i > 0; i-- {
+			suf := new(big.Int).SetUint64(r.U64())
+			suf.Mod(suf, new(big.Int).Lsh(big.NewInt(1), uint(sb)))
+			pat = append(pat, pv{suf, int64(5 + r.Intn(3))})
+		}
+		for i := 2 + r.Intn(2); i > 0; i-- {
+			pre := new(big.Int).SetUint64(r.U64())
+			if r.Chance(50) {
+				pre.SetUint64(uint64(r.Intn(8))) // prefixes that differ only in their last bits: deep common path
+			}
+			pre.Lsh(pre, uint(sb))
+			pre.Mod(pre, max)
+			for _, q := range pat {
+				k := new(big.Int).Or(pre, q.suf)
+				c.Ops = append(c.Ops, fmt.Sprintf("%x:%x", k, big.NewInt(q.v)))
+				present[k.Text(16)] = k
+				universe = append(universe, k)
+			}
+		}
+		c.Shape = "repeated-subtrie"
+		if n > 4 {
+			n = r.Intn(4)
+		}
+	}
 	for i := 0; i < n; i++ {
 		k := universe[r.Intn(len(universe))]
 		v := big.NewInt(int64(1 + r.Intn(1000)))
